@@ -239,8 +239,7 @@ func runC11(w *World, r *Report, tier string) {
 			pf, _ := loadedField(pv)
 			r.Check(has && pf == fID && strings.HasSuffix(fieldNames(fieldPath(pv)), "SMState.Id"), "R2", cons+"#PrevId", w.ipos(al), "previd is not the stored resumption id: "+describeOpt(w, pv), "PrevId = load SMState.Id")
 			hv, hasH := fields["H"]
-			fa, isFA := hv.(*ssa.FieldAddr)
-			r.Check(hasH && isFA && fieldOfAddr(fa) == fInbound, "R2", cons+"#H", w.ipos(al), "h is not the session's inbound counter: "+describeOpt(w, hv), "H = &SMState.Inbound")
+			r.Check(hasH && addrOfFieldOrCopy(hv, fInbound), "R2", cons+"#H", w.ipos(al), "h is not the session's inbound counter: "+describeOpt(w, hv), "H = &SMState.Inbound")
 		}
 		// reply read after the write
 		for _, c := range w.callsInH(fn, "stanza.NextPacket") {
